@@ -106,9 +106,47 @@ def cases(rng, tier):
     for _ in range(120 if quick else 900):
         yield dict(kind="float", mesh=gen_float_mesh(rng), nvdim=rng.choice([1, 2, 3, 4]), tier=tier,
                    sub=rng.getrandbits(32))
+    for _ in range(60 if quick else 500):
+        yield gen_history(rng, tier)
     for _ in range(60 if quick else 300):
         yield dict(kind="bad", mesh=gen_mesh(rng, "quick", rng.choice([1, 1, 2, 3])), nvdim=rng.choice([1, 3]), tier=tier,
                    sub=rng.getrandbits(32))
+
+
+def gen_history(rng, tier):
+    """a field (or two fields sharing ONE mesh object) whose mesh is transformed IN PLACE between evaluations"""
+    shared = rng.random() < 0.3
+    ndim = rng.choice([1, 2, 2, 3, 3, 4])
+    spec = gen_mesh(rng, "quick", ndim)
+    while int(np.prod(spec["n"])) > 60:
+        k = rng.randrange(ndim)
+        lo, hi, cell = frac_geometry(spec)
+        spec["n"][k] = max(1, spec["n"][k] - 1)
+        spec["p1"], spec["p2"] = [float(x) for x in lo], [float(l + n * c) for l, n, c in zip(lo, spec["n"], cell)]
+        spec["subs"] = []
+    dims = dims_of(spec)
+    steps = []
+    for _ in range(rng.randint(2, 4) if tier == "quick" else rng.randint(2, 6)):
+        # quarter turns go through float sin/cos: corners stop being dyadic, the tolerance comparators take over from there
+        # (no subregions then: which subregions a bare-name selection keeps is decided by a floor on a cell face)
+        kinds = ["scale", "scale", "translate"] + (["rotate90", "rotate90"] if ndim >= 2 and not shared and not spec["subs"] else [])
+        kind = rng.choice(kinds)
+        target = "mesh" if (spec["subs"] or rng.random() < 0.6) else "region"
+        if kind == "scale":
+            if rng.random() < 0.5:
+                factor = rng.choice([2.0, 0.5, 4.0, -1.0, -2.0, 1.5, 0.25, -0.5])
+            else:
+                factor = [rng.choice([2.0, 0.5, -1.0, 1.5, 1.0, -2.0]) for _ in range(ndim)]
+            ref = [float(Fraction(rng.randint(-16, 16), 2)) for _ in range(ndim)] if rng.random() < 0.3 else None
+            steps.append(dict(op="scale", factor=factor, ref=ref, target=target))
+        elif kind == "translate":
+            steps.append(dict(op="translate", vector=[float(Fraction(rng.randint(-40, 40), 4)) for _ in range(ndim)], target=target))
+        else:
+            a1, a2 = rng.sample(dims, 2)
+            steps.append(dict(op="rotate90", ax1=a1, ax2=a2, k=rng.choice([1, 1, 3, -1, 2])))
+    nv = rng.choice([1, 1, ndim, 3]) if ndim > 1 else rng.choice([1, 2])
+    return dict(kind="history", mesh=spec, nvdim=nv, nvdim2=rng.choice([1, 2]), shared=shared, steps=steps, tier=tier,
+                sub=rng.getrandbits(32))
 
 
 # ------------------------------------------------------------------ adapter helpers
@@ -177,6 +215,8 @@ def do_request(f, req, rng=None, fn_form=False, as_tuple=False):
         return call(chain)
     if op == "sel":
         return call(lambda: f.mesh.sel(req["dim"]))
+    if op == "dV":
+        return call(lambda: np.array([f.mesh.dV] + [float(c) for c in f.mesh.cell]))
     raise core.MachineryError(f"unknown request {op}")
 
 
@@ -261,8 +301,9 @@ def ordered_subsets(dims, rng, tier):
     return out
 
 
-def field_oracle(case, f, arr, mesh, rng, fail, exact):
-    """property-level checks on the real code alone.  exact=True: equality, else 2^-40 relative."""
+def field_oracle(case, f, arr, mesh, rng, fail, exact, light=False):
+    """property-level checks on the real code alone.  exact=True: equality, else 2^-40 relative.
+    light=True: the checks 1-5 only (used after every step of a history)."""
     spec = case["mesh"]
     lo, hi, cell = frac_geometry(spec)
     dims = dims_of(spec)
@@ -284,6 +325,15 @@ def field_oracle(case, f, arr, mesh, rng, fail, exact):
         return eq_rounded(impl, expected) if exact else eq_close(impl, expected, scale)
 
     space = tuple(range(nd))
+    # 0. the cell volume and the cell lengths the mesh reports are those of its current corners and counts
+    dv_impl = call(lambda: mesh.dV)
+    cell_impl = call(lambda: mesh.cell)
+    if is_err(dv_impl) or not same([dv_impl], np.array([dV], dtype=object), dV):
+        fail(f"mesh.dV = {dv_impl}, product of (edge / n) over the axes of the current mesh = {dV}")
+        return
+    if is_err(cell_impl) or not same(cell_impl, np.array(cell, dtype=object), max(cell)):
+        fail(f"mesh.cell = {cell_impl if is_err(cell_impl) else np.asarray(cell_impl).tolist()}, edge / n of the current mesh = {[str(c) for c in cell]}")
+        return
     # 1. the integral over all directions = cell volume x sum of the cell values
     exp_all = A.sum(axis=space) * dV
     I0 = call(lambda: f.integrate())
@@ -386,7 +436,7 @@ def field_oracle(case, f, arr, mesh, rng, fail, exact):
             if not reduced_mesh_ok(g.mesh, spec, list(axes)):
                 fail(f"mean({s}) lives on {g.mesh}, not on the mesh with axes {list(axes)} removed")
                 return
-    if not exact:
+    if not exact or light:
         return
     # 6. linearity
     arr2 = fieldio.gen_int_array(rng, arr.shape)
@@ -512,11 +562,111 @@ def bad_requests(rng, dims):
     return out
 
 
+def spec_of_mesh(mesh):
+    """the CURRENT state of a mesh object, in the form of a generator spec"""
+    return dict(p1=[float(x) for x in mesh.region.pmin], p2=[float(x) for x in mesh.region.pmax],
+                n=[int(k) for k in mesh.n], dims=list(mesh.region.dims), units=list(mesh.region.units), bc=mesh.bc,
+                subs=[[k, [float(x) for x in r.pmin], [float(x) for x in r.pmax]] for k, r in mesh.subregions.items()])
+
+
+def stage_requests(dims):
+    reqs = [dict(op="dV"), dict(op="integrate", dir=None, cumulative=False), dict(op="mean", dir=None)]
+    for d in dims:
+        reqs += [dict(op="integrate", dir=d, cumulative=False), dict(op="integrate", dir=d, cumulative=True),
+                 dict(op="mean", dir=d), dict(op="sel", dim=d)]
+    if len(dims) >= 2:
+        reqs += [dict(op="integrate_seq", dirs=list(reversed(dims))), dict(op="mean", dir=[dims[-1], dims[0]])]
+    return reqs
+
+
+def apply_step(f, st):
+    m = f.mesh
+    if st["op"] == "scale":
+        tgt = m if st["target"] == "mesh" else m.region
+        fac = tuple(st["factor"]) if isinstance(st["factor"], list) else st["factor"]
+        ref = tuple(st["ref"]) if st.get("ref") else None
+        return call(lambda: tgt.scale(fac, reference_point=ref, inplace=True))
+    if st["op"] == "translate":
+        tgt = m if st["target"] == "mesh" else m.region
+        return call(lambda: tgt.translate(tuple(st["vector"]), inplace=True))
+    return call(lambda: f.rotate90(st["ax1"], st["ax2"], k=st["k"], inplace=True))
+
+
+def same_nested(a, b, exact):
+    """equal (exact regime) / equal to 2^-40 relative of the largest entry (after a quarter turn)"""
+    if exact:
+        return a == b
+    if isinstance(a, dict):
+        return isinstance(b, dict) and a.keys() == b.keys() and all(same_nested(a[k], b[k], exact) for k in a)
+    if is_err(a) or is_err(b):
+        return is_err(a) and is_err(b)
+    x, y = np.asarray(a, dtype=float), np.asarray(b, dtype=float)
+    return x.shape == y.shape and bool(np.all(np.abs(x - y) <= 2.0 ** -40 * max(1e-300, float(np.max(np.abs(y), initial=0.0)))))
+
+
+def run_history(case, rng, obs, fail):
+    """one mesh OBJECT, transformed in place between evaluations; every evaluation must be the one of the
+    field's current mesh state"""
+    spec = case["mesh"]
+    mesh = build_mesh(spec)
+    nv = case["nvdim"]
+    arr = fieldio.gen_int_array(rng, (*spec["n"], nv))
+    fields = [df.Field(mesh, nvdim=nv, value=arr, unit=rng.choice([None, "T"]))]
+    if case["shared"]:
+        fields.append(df.Field(mesh, nvdim=case["nvdim2"], value=fieldio.gen_int_array(rng, (*spec["n"], case["nvdim2"]))))
+    obs["stages"] = []
+    prev = None
+    exact = True
+    for k in range(len(case["steps"]) + 1):
+        if k > 0:
+            st = case["steps"][k - 1]
+            r = apply_step(fields[0], st)
+            obs["tags"].append(f"step:{st['op']}:{'err' if is_err(r) else 'ok'}")
+            if st["op"] == "rotate90" and not is_err(r):
+                exact = False
+        stage = []
+        cur = []
+        for fi, f in enumerate(fields):
+            if f.mesh is not fields[0].mesh:
+                fail(f"field {fi} no longer refers to the shared mesh object after step {k}")
+            dims = list(f.mesh.region.dims)
+            reqs = stage_requests(dims)
+            fj = fieldio.field_json(f)
+            res = [canon_or_err(do_request(f, r)) for r in reqs]
+            stage.append(dict(field=fj, reqs=reqs, res=res, exact=exact))
+            sub_fail = []
+            field_oracle(dict(mesh=spec_of_mesh(f.mesh), nvdim=f.nvdim, tier=case.get("tier")), f, f.array, f.mesh, rng,
+                         sub_fail.append, exact=exact, light=True)
+            for t in sub_fail:
+                fail(f"after {k} in-place step(s) {case['steps'][:k]} (field {fi}): {t}")
+            cur.append(dict(i0=call(lambda: np.asarray(f.integrate()).tolist()), m0=call(lambda: np.asarray(f.mean()).tolist()),
+                            dirs={d: call(lambda: np.asarray(getattr(f.integrate(d), "array", f.integrate(d))).tolist()) for d in dims}))
+        # the property's own invariances between consecutive stages
+        if prev is not None and not is_err(r):
+            st = case["steps"][k - 1]
+            for fi, (a, b) in enumerate(zip(prev, cur)):
+                if st["op"] in ("scale", "translate") and a["m0"] != b["m0"]:
+                    fail(f"mean() changed from {a['m0']} to {b['m0']} when the mesh was {st['op']}d in place ({st})")
+                if st["op"] == "translate" and not (same_nested(a["i0"], b["i0"], exact) and same_nested(a["dirs"], b["dirs"], exact)):
+                    fail(f"integrals changed when the mesh was moved in place by {st['vector']}: integrate() {a['i0']} -> {b['i0']}")
+        prev = cur
+        obs["stages"].append(stage)
+    obs["field"] = obs["stages"][0][0]["field"]
+    obs["reqs"], obs["res"] = [], []
+    ncell = int(np.prod(spec["n"]))
+    obs["tags"] += [f"ndim:{len(spec['n'])}", f"nvdim:{nv}", f"shared:{case['shared']}", f"subs:{len(spec.get('subs', []))}",
+                    f"steps:{len(case['steps'])}"]
+    obs["nontrivial"] = ncell >= 2 and len(set(arr.reshape(-1).tolist())) > 1
+    return obs
+
+
 def run_impl(case):
     rng = random.Random(case["sub"])
     kind = case["kind"]
     obs = {"oracle": [], "tags": ["kind:" + kind]}
     fail = obs["oracle"].append
+    if kind == "history":
+        return run_history(case, rng, obs, fail)
     mesh, arr, f = make_field(case, rng)
     dims = list(mesh.region.dims)
     nd = len(dims)
@@ -555,6 +705,8 @@ def run_impl(case):
 
 
 def model_requests(case, obs):
+    if case["kind"] == "history":
+        return [dict(op="batch", field=st["field"], reqs=st["reqs"]) for stage in obs["stages"] for st in stage]
     return [dict(op="batch", field=obs["field"], reqs=obs["reqs"])]
 
 
@@ -605,6 +757,9 @@ def cmp_res(name, got, resp, dis, mode, scale):
         dis.append(f"{name}: impl raised {got['err']}, model returns a result")
         return
     m = resp["ok"]
+    if "cell" in resp:  # dV request: [dV, cell...]
+        cmp_vals(name, got["vals"], [m] + list(resp["cell"]), dis, mode, scale)
+        return
     if "mesh" in got:
         cmp_mesh(name, got["mesh"], m, dis, mode != "tol")
         return
@@ -647,11 +802,30 @@ def req_label(r):
         return f"mean({r.get('dir')!r})"
     if r["op"] == "integrate_seq":
         return f"integrate chain {r['dirs']}"
+    if r["op"] == "dV":
+        return "mesh.dV, mesh.cell"
     return f"mesh.sel({r['dim']!r})"
 
 
 def compare(case, obs, rs):
     dis = []
+    if case["kind"] == "history":
+        flat = [(k, fi, st) for k, stage in enumerate(obs["stages"]) for fi, st in enumerate(stage)]
+        if len(flat) != len(rs):
+            raise core.MachineryError("history batch count mismatch")
+        for (k, fi, st), resp in zip(flat, rs):
+            if "ok" not in resp:
+                dis.append(f"model batch failed after {k} step(s): {resp}")
+                continue
+            tot = sum(abs(F(x)) for row in st["field"]["data"] for x in row)
+            for r, got, out in zip(st["reqs"], st["res"], resp["ok"]):
+                if st["exact"]:
+                    mode, sc = ("round" if r["op"] == "mean" else "exact"), Fraction(0)
+                else:
+                    mode = "tol"
+                    sc = tot if r["op"] == "mean" else tot * measure_of(st["field"]["mesh"], r)
+                cmp_res(f"after {k} in-place step(s) {case['steps'][:k]}, field {fi}: {req_label(r)}", got, out, dis, mode, sc)
+        return dis
     if "ok" not in rs[0]:
         return [f"model batch failed: {rs[0]}"]
     outs = rs[0]["ok"]
